@@ -1082,6 +1082,7 @@ type dstate =
 | DPS of psef * n list * n
 | DWM of wavelet * bkind * n list * n
 | DBroad
+| DWrap
 | DBig of bitvec * bool
 | DSer of dstate * ty * val0 * n list * n
 
